@@ -238,9 +238,11 @@ def one_cli(idx, line):
     os.makedirs(os.path.join(d, "bin"))
     fails = []
     try:
+        mode = (line.split("|", 1)[0].split() + ["0", "0"])[1]
         for n in ("cbindgen", "rustup"):
             p = os.path.join(d, "bin", n)
-            open(p, "w").write(STUB)
+            # header field 2 = 2: cbindgen itself FAILS (prints nothing, exit status 3)
+            open(p, "w").write(STUB if mode != "2" else "#!/bin/sh\necho \"$0\" >> \"$STUB_LOG\"\necho 'ERROR: Parsing crate' >&2\nexit 3\n")
             os.chmod(p, 0o755)
         open(os.path.join(d, "canned.h"), "w").write(CANNED)
         open(os.path.join(d, "cfg1.toml"), "w").write('function_prefix = "one"\n')
@@ -250,7 +252,7 @@ def one_cli(idx, line):
         env["STUB_LOG"] = os.path.join(d, "log")
         env["STUB_HEADER"] = os.path.join(d, "canned.h")
         open(os.path.join(d, "cb.toml"), "w").write("")
-        if line.split("|", 1)[0].split()[1:2] == ["1"]:
+        if mode in ("1", "2"):
             # regeneration in place: every output path named on the command line already holds an older header that is longer than the new one
             for a, b in zip(argv, argv[1:]):
                 if a in ("-o", "--output") and b not in ("-o", "--output") and "/" not in b and b not in ("cb.toml", "cfg1.toml", "cfg2.toml", "canned.h", "log"):
@@ -261,6 +263,14 @@ def one_cli(idx, line):
         cfgs = [b for a, b in zip(pre0, pre0[1:]) if a in ("-c", "--config")]
         p = subprocess.run([_built["bin"]] + argv, cwd=d, capture_output=True, text=True, env=env, timeout=60)
         log = open(os.path.join(d, "log")).read().split("\n")[:-1] if os.path.exists(os.path.join(d, "log")) else []
+        if mode == "2":
+            # no processed header can be produced: the tool must say so (non-zero exit status) and must leave every file as it was
+            bad = []
+            if p.returncode == 0:
+                bad.append("cbindgen-failed-but-the-tool-exits-0")
+            if snap() != before:
+                bad.append("files-changed-although-cbindgen-failed")
+            return "-7 # fails=%s" % ("|".join(bad) if bad else "-")
         if any(not os.path.isfile(os.path.join(d, c)) for c in cfgs):
             # a configuration file that does not exist is an error, and nothing must have been run or written
             bad = p.returncode == 0 or log
@@ -329,8 +339,8 @@ def compare(l, impl_rows, model_rows):
     norm = lambda s: [r.strip() for r in (s or "").split(";") if r.strip() != "" or True]
     a, b = [r.strip() for r in (impl_rows or "").split(";")], [r.strip() for r in (model_rows or "").split(";")]
     if l.startswith("18 "):
-        if a == ["-8"]:
-            return True      # rejected for a missing configuration file: the model knows nothing about the file system
+        if a == ["-8"] or a == ["-7"]:
+            return True      # rejected for a missing configuration file / a failing cbindgen: the model knows nothing about the file system
         # an empty string row prints as an empty row on both sides
         return a == b
     return [r for r in a if r] == [r for r in b if r]
@@ -402,6 +412,12 @@ def gen_cases(rng, tier):
     for i in range(n):
         mal = (i % 8 == 7)
         lines.append(cli_case(rng.fork("cli%d" % i), mal))
+        if i % 5 == 0:      # the failure paths: cbindgen fails (header field 2 = 2); a configuration file that does not exist
+            fl = cli_case(rng.fork("clif%d" % i), False)
+            lines.append("18 2 |" + fl.split("|", 1)[1])
+            argv = argv_of(fl)
+            k = argv.index("--") if "--" in argv else 0
+            lines.append("18 0 | " + " ; ".join(B.srow(a) for a in (argv[:k] + ["-c", "missing.toml"] + argv[k:])))
         dist["cli_cases"] += 1
         dist["malformed_cli"] += 1 if mal else 0
     return lines, dist
